@@ -111,7 +111,7 @@ M("c06-prod", "C06", J, "return np.prod(fs, axis=-1)", "return np.prod(fs[:, 1:]
 M("c06-perm", "C06", J, "                x = np.array(args)[np.argsort(arg_order)].reshape((1, n_dim))\n                return self.pdf(x)\n\n            return integral_func\n\n        # TODO make limits (or lower limit)", "                x = np.array(args)[arg_order].reshape((1, n_dim))\n                return self.pdf(x)\n\n            return integral_func\n\n        # TODO make limits (or lower limit)", rules=["C06.argorder"])
 M("c06-delegate", "C06", J, "            return self.distributions[dim].cdf(x)", "            return self.distributions[dim].pdf(x)", rules=["C06.delegate"])
 M("c06-quantile-col", "C06", J, "        x = np.quantile(sample[:, dim], p)", "        x = np.quantile(sample[:, 0], p)", rules=["C06.mc"])
-M("c06-chkfinite", "C06", J, "        x = np.asarray_chkfinite(x)\n        fs = np.empty_like(x)", "        x = np.asarray(x)\n        fs = np.empty_like(x)", rules=["C06.finite"])
+M("c06-chkfinite", "C06", J, "        x = np.asarray_chkfinite(x)\n        fs = np.empty_like(x, dtype=float)", "        x = np.asarray(x)\n        fs = np.empty_like(x, dtype=float)", rules=["C06.finite"])
 M("c06-cdf-limits", "C06", J, "            integration_limits = [\n                (lower_integration_limits[j], x[i, j]) for j in range(n_dim)\n            ]\n\n            p[i], error = integrate.nquad(integral_func, integration_limits)\n\n        return p\n\n    @abstractmethod", "            integration_limits = [\n                (lower_integration_limits[j], x[i, 0]) for j in range(n_dim)\n            ]\n\n            p[i], error = integrate.nquad(integral_func, integration_limits)\n\n        return p\n\n    @abstractmethod", rules=["C06.argorder"])
 M("c07-cond-col", "C07", J, "                conditioning_values = samples[:, cond_idx]\n                samples[:, i]", "                conditioning_values = samples[:, i - 1]\n                samples[:, i]", rules=["C07.chain"])
 M("c07-drop-rs", "C07", J, "                samples[:, i] = dist.draw_sample(n, random_state=random_state)", "                samples[:, i] = dist.draw_sample(n)", rules=["C07.rng"])
@@ -198,7 +198,9 @@ M("c17-close-x", "C17", U, "    y1 = np.append(coords[:, y_idx], coords[0, y_idx
 M("c17-swap", "C17", U, "    if swap_axis:\n        x_idx = 1\n        y_idx = 0\n    else:\n        x_idx = 0\n        y_idx = 1\n\n    coords = contour.coordinates", "    if swap_axis:\n        x_idx = 0\n        y_idx = 1\n    else:\n        x_idx = 0\n        y_idx = 1\n\n    coords = contour.coordinates", rules=["C17.swap"])
 M("c17-inrange", "C17", IX, "(T[0, :] <= 1) & (T[1, :] <= 1)", "(T[0, :] <= 1) & (T[1, :] < 1)", rules=["C17.inrange"])
 M("c17-default-num", "C17", U, "            default_lower_limit, default_uppper_limit, endpoint=True, num=10", "            default_lower_limit, default_uppper_limit, endpoint=True, num=5", rules=["C17.default"])
-M("c17-probe-span", "C17", U, "    y2 = [np.min(y1) - np.max(y1) * 0.1, np.max(y1) + np.max(y1) * 0.1]", "    y2 = [np.min(y1), np.max(y1) * 0.9]", rules=["C17.probe"])
+M("c17-probe-span", "C17", U, "    y2 = [np.min(y1) - y_margin, np.max(y1) + y_margin]", "    y2 = [np.min(y1), np.max(y1) * 0.9]", rules=["C17.probe"])
+M("c17-probe-margin-sign", "C17", U, "    y_margin = (np.max(y1) - np.min(y1)) * 0.1\n    y2 = [np.min(y1) - y_margin, np.max(y1) + y_margin]", "    y2 = [np.min(y1) - np.max(y1) * 0.1, np.max(y1) + np.max(y1) * 0.1]", rules=["C17.probe"], what="original defect D29")
+M("c17-twin-probe-abs", "C17", U, "    y_margin = (np.max(y1) - np.min(y1)) * 0.1\n", "    y_margin = 0.1 * (np.max(y1) - np.min(y1))\n", expect="pass")
 
 # ------------------------------------------------------------------ C18 / C19 / C20
 M("c18-2d-late", "C18", C, '        if self.model.n_dim != 2:\n            raise NotImplementedError(\n                "AndContour is currently only implemented for two dimensions."\n            )\n\n        if sample is None:\n            sample = self.model.draw_sample(n)\n            self.sample = sample',
@@ -209,14 +211,15 @@ M("c18-exc-class", "C18", J, '                raise ValueError(\n               
 M("c18-both", "C18", D, '                if getattr(distribution, f"f_{par_name}") is not None:\n                    raise ValueError(', '                if getattr(distribution, f"f_{par_name}") is not None and False:\n                    raise ValueError(', rules=["C18.guard"])
 M("c18-nan", ["C18", "C02"], C, "        if np.isnan(f).any():\n            raise ValueError(\n                \"Encountered nan", "        if np.isnan(f).all():\n            raise ValueError(\n                \"Encountered nan", rules={"C18": ["C18.guard"], "C02": ["C02.nan"]})
 M("c18-ppi-callable", "C18", I, "        if not callable(reference):\n            raise TypeError(", "        if reference is None:\n            raise TypeError(", rules=["C18.guard"], what="original defect D16")
-M("c18-data-dim", "C18", J, "        if data.shape[-1] != self.n_dim:", "        if data.shape[-1] > self.n_dim:", rules=["C18.guard"])
+M("c18-data-dim", "C18", J, "        if data.ndim != 2 or data.shape[-1] != self.n_dim:", "        if data.ndim != 2 or data.shape[-1] > self.n_dim:", rules=["C18.guard"])
+M("c18-data-ndim", "C18", J, "        if data.ndim != 2 or data.shape[-1] != self.n_dim:", "        if data.shape[-1] != self.n_dim:", rules=["C18.guard"], what="original defect D27")
 M("c19-ew-pdf-inplace", "C19", D, "        x_greater_zero = np.where(x > 0, x, np.nan)", "        x = np.asarray(x, dtype=float)\n        x[x <= 0] = np.nan\n        x_greater_zero = x", rules=["C19.noargmut"])
 M("c19-sample-inplace", "C19", C, "        x, y = sample.T\n\n        # Calculate non-exceedance probability.", "        x, y = sample.T\n        x -= 0\n\n        # Calculate non-exceedance probability.", rules=["C19.nomodelwrite"])
-M("c19-model-cache", "C19", J, "        x = np.asarray_chkfinite(x)\n        fs = np.empty_like(x)", "        x = np.asarray_chkfinite(x)\n        self._last_x = x\n        fs = np.empty_like(x)", rules=["C19.nomodelwrite"])
+M("c19-model-cache", "C19", J, "        x = np.asarray_chkfinite(x)\n        fs = np.empty_like(x, dtype=float)", "        x = np.asarray_chkfinite(x)\n        self._last_x = x\n        fs = np.empty_like(x, dtype=float)", rules=["C19.nomodelwrite"])
 M("c19-coords-sort", "C19", U, "    coords = contour.coordinates\n\n    x1 =", "    coords = contour.coordinates\n    coords.sort(axis=0)\n\n    x1 =", rules=["C19.noargmut"])
 M("c19-shared-bounds", "C19", PR, '    bounds = [(0, None), (0, None), (None, None)]\n\n    power3 = DependenceFunction(_power3, bounds, latex="$a + b * x^c$")', '    bounds = _SHARED_BOUNDS\n\n    power3 = DependenceFunction(_power3, bounds, latex="$a + b * x^c$")', rules=["C19.getters"])
 M("c19-intersection-inplace", "C19", IX, "    x1 = np.asarray(x1)\n    x2 = np.asarray(x2)", "    x1 = np.asarray(x1)\n    x1[0] = x1[0]\n    x2 = np.asarray(x2)", rules=["C19.noargmut"])
-M("c19-twin-copy", "C19", J, "        x = np.asarray_chkfinite(x)\n        fs = np.empty_like(x)", "        x = np.asarray_chkfinite(x).copy()\n        x[0, 0] = x[0, 0]\n        fs = np.empty_like(x)", expect="pass")
+M("c19-twin-copy", "C19", J, "        x = np.asarray_chkfinite(x)\n        fs = np.empty_like(x, dtype=float)", "        x = np.asarray_chkfinite(x).copy()\n        x[0, 0] = x[0, 0]\n        fs = np.empty_like(x, dtype=float)", expect="pass")
 M("c20-close", "C20", PL, "    y.append(y[0])", "    y.append(x[0])", rules=["C20.contour"])
 M("c20-iso-swap", "C20", PL, "    if swap_axis:\n        tmp = X\n        X = Y\n        Y = tmp", "    if swap_axis:\n        tmp = X\n        Y = tmp", rules=["C20.others"])
 M("c20-fmt", "C20", C, 'fmt="%1.6f",', 'fmt="%1.5f",', rules=["C20.save"])
@@ -243,8 +246,9 @@ M("c11-generic-fkw", "C11", D, "                setattr(self, key, arg)\n       
 M("c15-shape-no-sorter", "C15", C, "                self.coordinates = np.array(\n                    sort_points_to_form_continuous_line(\n                        *coordinates, search_for_optimal_start=True\n                    )\n                ).T", "                self.coordinates = np.array(coordinates)", rules=["C15.shape"])
 M("c15-twin-gbs", "C15", C, "structure = np.ones(tuple([3] * n_dim), dtype=bool)", "structure = ndi.generate_binary_structure(n_dim, n_dim)", expect="pass")
 # ------------------------------------------------------------------ repaired copies of the recorded findings
-M("repair-D9", "C14", FIT, "        # constraints=constraints,\n        bounds=bounds,", "        constraints=constraints,\n        bounds=bounds,", expect="repaired", rules=["C14.constraints"], what="constraints handed to minimize")
-M("repair-D15", "C17", U, "        assert len(x) <= 2\n        assert len(y) <= 2\n", "", expect="repaired", rules=["C17.all"], what="asserts on the number of crossings removed")
+M("c14-constraints-dropped", "C14", FIT, "        constraints=constraints,\n        bounds=bounds,", "        # constraints=constraints,\n        bounds=bounds,", rules=["C14.constraints"], what="original defect D9")
+M("c14-step-1e-15", "C14", FIT, "        bounds=bounds,\n        # tol=1E-15\n", "        bounds=bounds,\n        options={\"eps\": 1e-15},\n", rules=["C14.constraints"], what="original defect D9 (finite-difference step)")
+M("c17-assert-two-crossings", "C17", U, "        x, y = intersection(x1, y1, [x2, x2], y2)\n", "        x, y = intersection(x1, y1, [x2, x2], y2)\n        assert len(x) <= 2\n        assert len(y) <= 2\n", rules=["C17.all"], what="original defect D15")
 M("repair-D10", "C15", U, "    order = list(nx.dfs_preorder_nodes(T, 0))\n", "    order = list(nx.dfs_preorder_nodes(T, 0))\n    if len(order) != len(points):\n        raise RuntimeError(\"points do not form one continuous line\")\n", expect="repaired", rules=["C15.perm"], what="length guard on the order")
 M("repair-D11", "C03", C, "        angles = np.arange(\n            0.5 * np.pi + 2 * rad_step, -1.5 * np.pi + rad_step, -1 * rad_step\n        )", "        n_angles = int(round(360 / deg_step)) + 1\n        angles = 0.5 * np.pi + 2 * rad_step - rad_step * np.arange(n_angles)", expect="repaired", rules=["C03.grid"], what="direction grid enumerated by integer count")
 
@@ -362,3 +366,11 @@ M("c08-draw-broadcast-changes-value", ["C08", "C07"], D, "np.broadcast_to(value,
 M("c07-vonmises-rvs-loc", ["C07", "C05"], D, "        return loc + sts.vonmises.rvs(shape, size=rvs_size, random_state=random_state)", "        return sts.vonmises.rvs(shape, loc, size=rvs_size, random_state=random_state)",
   rules={"C07": ["C07.family"], "C05": ["C05.siblings"]}, what="original defect D26")
 M("c07-twin-vonmises-rvs-order", ["C07", "C05"], D, "        return loc + sts.vonmises.rvs(shape, size=rvs_size, random_state=random_state)", "        return sts.vonmises.rvs(shape, size=rvs_size, random_state=random_state) + loc", expect="pass")
+
+# ------------------------------------------------------------------ round 4 continued: D28, D30, cache
+M("c20-layout-index", "C20", PL, "*table[n_intervals - 1], sharex=True", "*table[n_intervals], sharex=True", rules=["C20.others"], what="original defect D28")
+M("c20-layout-short", "C20", PL, "        (2, 2),\n        (2, 3),\n", "        (1, 3),\n        (2, 3),\n", rules=["C20.others"], what="a layout with fewer axes than intervals")
+M("c06-int-buffer", "C06", J, "        fs = np.empty_like(x, dtype=float)", "        fs = np.empty_like(x)", rules=["C06.buffer"], what="original defect D30")
+M("c06-twin-buffer-empty", "C06", J, "        fs = np.empty_like(x, dtype=float)", "        fs = np.empty(x.shape)", expect="pass")
+M("c16-int-buffer", "C16", J, "        p = np.empty_like(x, dtype=float)", "        p = np.empty_like(x)", rules=["C16.mc"], what="original defect D30 (conditional_cdf)")
+M("c16-cache-kept", "C16", J, "        # the sample kept for empirical_cdf belongs to the model as it was\n        self._sample = None\n", "", rules=["C16.cache"], what="stale sample after re-fit")
